@@ -226,6 +226,7 @@ func init() {
 		rep.Explain("C13 decides sibling clauses of the mutators: the cells of set and modify keep the index-selection fingerprints they share across []any, gen.Array and Indexed (and map, gen.Object, Keyed): bound normalisation, guards such as 0 <= i && i < LEN, loop bounds, and the labelled break that stops the *One forms after the first change. The known divergence of modify/remove from Get on the slice end bound (inclusive) is pinned by jp/remove_test.go and recorded in KNOWN_FINDINGS.txt. Not covered: the frame condition on values, Set's created structure.")
 		ruleSiblingArith(prog, rep, map[string]bool{"set": true, "modify": true}, "B-mutate")
 		ruleC13Extra(prog, rep)
+		ruleSliceBound(prog, rep)
 		ruleAppendRetain(prog, rep, "jp")
 		rulePresenceByNil(prog, rep)
 		ruleIndexLE(prog, rep, "jp")
